@@ -343,6 +343,26 @@ fn check_seq(c: &SeqCase) -> PResult {
         let mut w = Warnings::new();
         let mut u = Unpacker::new(prefix);
         let got = read_fields(&mut u, fields, &mut w, prefix)?;
+        if let Err(i) = &got {
+            // "every read checks the remaining length and poisons the unpacker on error": after the
+            // failed read nothing is left to read, so the bytes of the broken field cannot be taken
+            // for later fields
+            ensure!(
+                u.is_empty() && u.as_slice().is_empty(),
+                "read of field {} failed on a {}-byte prefix but the unpacker still offers {:?}",
+                i,
+                cut,
+                hex(u.as_slice())
+            );
+            ensure_eq!(u.num_bytes_read(), cut, "num_bytes_read after the failed read of field {}", i);
+            ensure!(u.read_int(&mut Warnings::new()).is_err(), "read_int after the failed read of field {} succeeded", i);
+            ensure!(u.read_string().is_err(), "read_string after the failed read of field {} succeeded", i);
+            ensure!(u.read_data(&mut Warnings::new()).is_err(), "read_data after the failed read of field {} succeeded", i);
+            ensure!(u.read_raw(1).is_err(), "read_raw(1) after the failed read of field {} succeeded", i);
+            let mut ex = Warnings::new();
+            u.finish(&mut ex);
+            ensure!(ex.is_empty(), "finish() after the failed read of field {} reports excess data: {:?}", i, ex.0);
+        }
         if let Ok(vals) = got {
             // all reads succeeded on a strict prefix: the values must differ only in trailing
             // raw-like fields (rest takes what is there)
